@@ -125,6 +125,7 @@ def logic_worker(analysis: Analysis, spec) -> dict:
     bad = []
     ret_unrouted = []
     flush_entries = set()
+    wake_no_flush = []
     pops = []
     nret = 0
     for out in outs:
@@ -152,6 +153,13 @@ def logic_worker(analysis: Analysis, spec) -> dict:
                 tname = f[3]
             if f[0] == "enumeq" and f[2] in ("Internal", "Stream"):
                 sub = f[3]
+        # a wake-up announcement of a known node that does not reach the flush
+        want_wake = WAKE.get(spec[0]) or set()
+        if tname == "internal" and sub in want_wake and not any(e.kind == "enter" and e.name == FLUSH for e in s.events):
+            mk = common.inbound_message_key(s.events)
+            nd = s.mem.get((mk, "a", "node_id")) if mk else None
+            if nd is not None and ("in", nd.key(), ("attr", ("root", "GW"), "sensors")) in s.facts:
+                wake_no_flush.append(describe_path(out, 20))
         for e in s.events:
             if e.kind == "enter" and e.name == FLUSH:
                 msgkey = common.inbound_message_key(s.events)
@@ -160,7 +168,7 @@ def logic_worker(analysis: Analysis, spec) -> dict:
                 flush_entries.add((tname, sub, known))
             if e.kind == "seqpop" and isinstance(e.recv, V) and render(e.recv.key()).endswith(".sensors[*].queue"):
                 pops.append(FLUSH if FLUSH in e.stack else e.func)
-    return {"ctx": ctx.name, "version": spec[0], "paths": len(outs), "sinks": {f"{k[0]}|{k[1]}|{k[2]}": v for k, v in sinks.items()}, "bad": bad, "ret_unrouted": ret_unrouted, "replies": nret, "flush_entries": sorted(flush_entries, key=str), "pops": sorted(set(pops))}
+    return {"ctx": ctx.name, "version": spec[0], "paths": len(outs), "sinks": {f"{k[0]}|{k[1]}|{k[2]}": v for k, v in sinks.items()}, "bad": bad, "ret_unrouted": ret_unrouted, "replies": nret, "flush_entries": sorted(flush_entries, key=str), "wake_no_flush": wake_no_flush[:2], "pops": sorted(set(pops))}
 
 
 def router_worker(analysis: Analysis, spec) -> dict:
@@ -218,6 +226,16 @@ def router_worker(analysis: Analysis, spec) -> dict:
         passed = kind == "val" and isinstance(v, V) and v.key() == msg.key() and not any(e.kind == "append" for e in s.events)
         stream_rows.append({"ok": passed, "witness": describe_path(out)})
     return {"ctx": ctx.name, "rows": rows, "held": held, "stream_rows": stream_rows}
+
+
+def hold_queue_plain(analysis: Analysis, res: RuleResult, rule: str) -> None:
+    """What the router puts into a node's hold queue is the encoded line (a str).  pickle writes the whole
+    instance dict, the transient queue included, so an object that references the message / gateway / const
+    module there makes every pickle save fail while a reply is withheld (shared by C11-R4, C06-R5, C14-R2)."""
+    for summ in common.pmap(analysis, router_worker, [(analysis.versions[-1], "serial", "sync")]):
+        held = [r for r in summ["rows"] if r["what"] == "holds the message"]
+        okq = bool(held) and all(r["ok"] for r in held)
+        res.add(rule, "__init__:Gateway._route_message / what is put into the node's hold queue is the encoded line (a str): the pickle of a node with withheld replies stays writable", okq, "mysensors/__init__.py", "queue.append(msg.encode())" if okq else (held[0]["why"] if held else "no holding path"), next((r["witness"] for r in held if not r["ok"]), None))
 
 
 def set_child_value_worker(analysis: Analysis, spec) -> dict:
@@ -346,6 +364,8 @@ def run(analysis: Analysis, tier: str) -> RuleResult:
         if want is not None:
             okw = {sub for _t, sub in got} == want and all(t == "internal" for t, _ in got)
             res.add("C07-R3", f"{s['version']}: the flush is reached exactly from {sorted(want) or 'nothing'}", okw, "mysensors/handler.py", f"flush entered from {sorted(got, key=str)}", context=s["ctx"])
+        if want is not None and want:
+            res.add("C07-R3", f"{s['version']}: every wake-up announcement of a known node reaches the flush (whatever its payload)", not s["wake_no_flush"], "mysensors/handler.py", "no announcement path skips handle_smartsleep" if not s["wake_no_flush"] else "a path handles the node's sleep announcement without entering the flush (e.g. returns early on a falsy payload such as heartbeat 0): the node is never flagged as sleeping and its traffic is not withheld", s["wake_no_flush"][0] if s["wake_no_flush"] else None, context=s["ctx"])
         unknown = [e for e in s["flush_entries"] if not e[2]]
         res.add("C07-R3", "handler:handle_smartsleep / entered only for a known node", not unknown, "mysensors/handler.py", "dominated by is_sensor(node)" if not unknown else f"flush can run for an unknown node ({unknown})", context=s["ctx"])
         badpops = [f for f in s["pops"] if f != FLUSH]
@@ -396,6 +416,10 @@ def run(analysis: Analysis, tier: str) -> RuleResult:
     # R6: "once a node has announced smart sleep": the sleeping test reads the node's desired-state map, which
     # only the wake-up announcement fills; nothing may empty or replace it afterwards
     common.check_no_key_removal(analysis, res, "C07-R6")
+    from .c11 import getstate_live_mutations
+
+    lm = getstate_live_mutations(analysis)
+    res.add("C07-R6", "sensor:Sensor.__getstate__ / a pickle save does not empty the live node's sleep state or hold queue", not lm, "mysensors/sensor.py", "only the copied instance dict is edited" if not lm else f"__getstate__ mutates objects shared with the live sensor ({lm[0]}): after every periodic save the node is no longer flagged as sleeping and its withheld replies are gone")
     res.units = {"contexts": len(specs), "paths": sum(s["paths"] for s in sums), "sink_events_classified": total_sinks, "sink_sites": len(sites) + 1, "source_digest": analysis.p.digest()}
     res.not_decided = ["timing of the burst"]
     res.assumptions = ["INV-KEY-ID (C01-INV): sensors[k].sensor_id == k", "user code that calls Gateway.send() with hand-built strings is outside the rule (documented raw API)"]
